@@ -321,10 +321,12 @@ func (svr *Service) loopLoginUntilSuccess(maxInterval time.Duration, firstLoginE
 			return false, err
 		}
 
+		// A reload must either be seen by this snapshot or find the new control:
+		// keep the configuration locked until the control is published below.
 		svr.cfgMu.RLock()
+		defer svr.cfgMu.RUnlock()
 		proxyCfgs := svr.proxyCfgs
 		visitorCfgs := svr.visitorCfgs
-		svr.cfgMu.RUnlock()
 		connEncrypted := true
 		if svr.clientSpec != nil && svr.clientSpec.Type == "ssh-tunnel" {
 			connEncrypted = false
@@ -369,16 +371,16 @@ func (svr *Service) loopLoginUntilSuccess(maxInterval time.Duration, firstLoginE
 
 func (svr *Service) UpdateAllConfigurer(proxyCfgs []v1.ProxyConfigurer, visitorCfgs []v1.VisitorConfigurer) error {
 	svr.cfgMu.Lock()
+	defer svr.cfgMu.Unlock()
 	svr.proxyCfgs = proxyCfgs
 	svr.visitorCfgs = visitorCfgs
-	svr.cfgMu.Unlock()
 
 	svr.ctlMu.RLock()
 	ctl := svr.ctl
 	svr.ctlMu.RUnlock()
 
 	if ctl != nil {
-		return svr.ctl.UpdateAllConfigurer(proxyCfgs, visitorCfgs)
+		return ctl.UpdateAllConfigurer(proxyCfgs, visitorCfgs)
 	}
 	return nil
 }
